@@ -29,10 +29,11 @@ const (
 // PointRec is one recorded choice point of an execution.
 type PointRec struct {
 	Kind           int
-	N              int   // number of alternatives
-	Chosen         int   // alternative taken
-	RunningEnabled bool  // KindSched: alternative 0 is "the running thread continues"
-	Tids           []int // KindSched: thread ids of the alternatives, canonical order
+	N              int       // number of alternatives
+	Chosen         int       // alternative taken
+	RunningEnabled bool      // KindSched: alternative 0 is "the running thread continues"
+	Key            [2]uint64 // hash of the global state before the choice (happens-before graph + harness log)
+	Tids           []int     // KindSched: thread ids of the alternatives, canonical order
 	Op             string
 }
 
@@ -81,9 +82,11 @@ type Sched struct {
 	shadow   map[unsafe.Pointer]*shadow
 	syncVC   map[unsafe.Pointer]*VC
 	ptrOrd   map[unsafe.Pointer]int
-	Switches int // number of times control moved between threads
-	MaxPerm  int // cap on alternatives at a map range (0 = default)
-	Ambig    int // map ranges whose canonical key order had ties
+	hbSum    [2]uint64 // commutative hash of executed events (thread, index, clock)
+	noteHash uint64    // order-dependent hash of harness-visible events
+	Switches int       // number of times control moved between threads
+	MaxPerm  int       // cap on alternatives at a map range (0 = default)
+	Ambig    int       // map ranges whose canonical key order had ties
 }
 
 var cur *Sched
@@ -184,6 +187,7 @@ func (s *Sched) start(t *thread, f func()) {
 				return
 			}
 			t.vc.tick(t.id)
+			s.addEvent(t)
 			s.schedule(nil, t)
 		}()
 		if s.aborting {
@@ -278,8 +282,12 @@ func (s *Sched) schedule(t *thread, exited *thread) {
 		if t != nil {
 			op = t.op
 		}
+		rt := -1
+		if t != nil {
+			rt = t.id
+		}
 		s.Points = append(s.Points, PointRec{Kind: KindSched, N: len(enabled), Chosen: idx,
-			RunningEnabled: t != nil && enabled[0] == t, Tids: tids, Op: op})
+			RunningEnabled: t != nil && enabled[0] == t, Tids: tids, Op: op, Key: s.stateKey(rt)})
 	}
 	next := enabled[idx]
 	if next == t {
@@ -312,6 +320,7 @@ func (s *Sched) finishFrom(t *thread) {
 // operation that is enabled iff pred() (nil = always).
 func (s *Sched) point(op string, pred func() bool) {
 	t := s.running
+	s.addEvent(t)
 	t.pred = pred
 	t.op = op
 	s.schedule(t, nil)
@@ -460,7 +469,8 @@ func Choose(n int, op string) int {
 		return 0
 	}
 	c := s.nextChoice(n, KindPerm)
-	s.Points = append(s.Points, PointRec{Kind: KindPerm, N: n, Chosen: c, Op: op})
+	s.Points = append(s.Points, PointRec{Kind: KindPerm, N: n, Chosen: c, Op: op, Key: s.stateKey(s.running.id)})
+	s.noteHash = mix64(s.noteHash^uint64(c+1)*0x9e3779b97f4a7c15, uint64(n))
 	return c
 }
 
@@ -481,4 +491,52 @@ func SortedStrings(m map[string]bool) []string {
 	}
 	sort.Strings(out)
 	return out
+}
+
+func mix64(a, b uint64) uint64 {
+	x := a ^ (b + 0x9e3779b97f4a7c15 + (a << 6) + (a >> 2))
+	x ^= x >> 33
+	x *= 0xff51afd7ed558ccd
+	x ^= x >> 33
+	x *= 0xc4ceb9fe1a85ec53
+	x ^= x >> 33
+	return x
+}
+
+// addEvent folds the step thread t just completed into the commutative
+// happens-before hash: (thread, step index, vector clock after the step).
+func (s *Sched) addEvent(t *thread) {
+	h1 := mix64(uint64(t.id)<<32|uint64(t.ran), 0x1234567)
+	h2 := mix64(uint64(t.ran)<<32|uint64(t.id), 0x89abcdef)
+	for i, c := range t.vc {
+		h1 = mix64(h1, uint64(i)<<32|uint64(c))
+		h2 = mix64(h2^0x5555, uint64(c)<<32|uint64(i))
+	}
+	s.hbSum[0] += h1
+	s.hbSum[1] += h2
+}
+
+func (s *Sched) stateKey(running int) [2]uint64 {
+	return [2]uint64{mix64(s.hbSum[0], s.noteHash) ^ uint64(running+7)*0x9e3779b97f4a7c15, mix64(s.hbSum[1], s.noteHash+uint64(running+1))}
+}
+
+// Note folds a harness-visible event (recorder entry, observed value) into the
+// order-dependent part of the state key, so that two schedules are only
+// merged by the explorer when the harness log is identical as well.
+func Note(h uint64) {
+	if s := cur; s != nil && !s.aborting {
+		s.noteHash = mix64(s.noteHash, h)
+	}
+}
+
+// NoteString is Note for strings.
+func NoteString(x string) {
+	if s := cur; s != nil && !s.aborting {
+		h := uint64(1469598103934665603)
+		for i := 0; i < len(x); i++ {
+			h ^= uint64(x[i])
+			h *= 1099511628211
+		}
+		s.noteHash = mix64(s.noteHash, h)
+	}
 }
